@@ -8,7 +8,7 @@ spec  : here — metamorphic: the responses under the segmentation equal the res
         (a read that carries the end of one request and the start of the next)
 """
 from .common import hx, unhx
-from . import reqgen
+from . import reqgen, c02
 
 ID = 'C06'
 GEN_DEPS = ['GenReqHeaders', 'GenResHeaders', 'GenStatus', 'GenConsts']
@@ -21,7 +21,8 @@ BUF = 1024
 
 
 def classify(reqs, script):
-    """'supported' | 'head_split' | 'coalesced' for a segmentation of the concatenation of reqs = [(head, body)].
+    """'supported' | 'head_split' | 'coalesced' | 'refused_body' for a segmentation of the concatenation of reqs = [(head, body)].
+    ('refused_body': a request the parser refuses — the session answers it and goes on — carries body bytes that its starting read did not bring: they are then taken for the next request)
     Read discipline (the documented limits of Request::read): a request is started by ONE read of at most BUF bytes, which returns what is left of the
     segment it falls in; the part of the body that read did not bring is then read exactly (any number of reads, never beyond the body).  So a request
     starts at a read boundary iff the starting read of the previous one did not reach beyond that request's end."""
@@ -34,6 +35,7 @@ def classify(reqs, script):
         seg_end = next((e for e in ends if e > s), s)
         r_end = s + min(BUF, seg_end - s)                     # the starting read brings [s, r_end)
         if r_end < s + hl: cls = 'head_split'
+        elif b and r_end < s + tl and cls == 'supported' and c02.spec_parse(h, b)[0] != 'ok': cls = 'refused_body'
         pos = s + tl
         if r_end > pos and pos < ends[-1]: return 'coalesced'          # bytes of the next request came with it
     return cls
@@ -49,13 +51,21 @@ def mk(rng, kind=None):
     if not reqs: reqs = [reqgen.request(rng)]
     stream = b''.join(h + b for h, b in reqs)
     canon = [h + b for h, b in reqs]
-    kind = kind or rng.choice(['body', 'body', 'body', 'headbody', 'multi', 'head', 'coalesce'])
+    kind = kind or rng.choice(['body', 'body', 'body', 'headbody', 'multi', 'head', 'coalesce'] * 3 + ['refused'])
+    if kind == 'refused':          # one request the parser refuses (a second Content-Length line, a header line that is no `Name: value`), with its body cut off the head
+        k = rng.randrange(len(reqs))
+        h, b = reqs[k]
+        if not b: b = b'abc'; h = h[:-2] + b'Content-Length: 3\r\n\r\n'
+        line = rng.choice([b'Content-Length: %d\r\n' % len(b), b'Bad Name: v\r\n', b'NoColon\r\n', b': empty\r\n', b'Host:nospace\r\n'])
+        reqs[k] = (h[:-2] + line + b'\r\n', b)
+        if len(reqs[k][0]) > BUF: reqs[k] = (h, b)
+        stream = b''.join(h + b for h, b in reqs); canon = [h + b for h, b in reqs]
     cuts = set()
     pos = 0
     for h, b in reqs:
         s, e = pos, pos + len(h) + len(b)
         cuts.add(s)
-        if kind == 'body' and b: cuts.add(rng.randrange(s + len(h), e))
+        if kind in ('body', 'refused') and b: cuts.add(rng.randrange(s + len(h), e) if rng.random() < 0.5 else s + len(h))
         elif kind == 'headbody' and b: cuts.add(s + len(h))
         elif kind == 'multi' and b:
             for _ in range(rng.choice([2, 3, 6])): cuts.add(rng.randrange(s + len(h), e))
@@ -75,8 +85,11 @@ def corpus():
     r2 = (b'GET / HTTP/1.1\r\n\r\n', b'')
     def c(script, reqs): return {'case': {'script': [hx(s) for s in script], 'canon': [hx(h + b) for h, b in reqs], 'eof': True, 'class': classify(reqs, script), 'kind': 'corpus'}}
     s = r1[0] + r1[1]
-    odd = (b'POST /a HTTP/1.1\r\nX\r\n\r\nY: v\r\nContent-Length: 3\r\n\r\n', b'abc')          # a header NAME holding a blank line (accepted by the lenient parser): the head ends where the parser stops
-    return [c([odd[0] + b'a', b'bc', r2[0]], [odd, r2]),
+    odd = (b'POST /a HTTP/1.1\r\nX\r\n\r\nY: v\r\nContent-Length: 3\r\n\r\n', b'abc')          # a header line that is no `Name: value` (its "name" would hold a blank line): refused with 400 since the field-name fix
+    dup = (b'POST /a HTTP/1.1\r\nContent-Length: 3\r\nContent-Length: 3\r\n\r\n', b'abc')            # two Content-Length lines: refused with 400
+    return [c([odd[0] + b'a', b'bc', r2[0]], [odd, r2]),                 # known finding: the body of a refused request arrives later and is taken for a request
+            c([dup[0], dup[1], r2[0]], [dup, r2]),                         # known finding (the same)
+            c([dup[0] + dup[1], r2[0]], [dup, r2]),                        # ... while with its body in the same read the refused request is answered and forgotten
             c([r1[0], r1[1], r2[0]], [r1, r2]),                       # body entirely after the head, starting with NUL (was: misread)
             c([s[:-2], s[-2:], r2[0]], [r1, r2]),                      # body split inside
             c([s[:10], s[10:], r2[0]], [r1, r2]),                      # known finding: head split
